@@ -4,12 +4,14 @@ Same model, harness and tie as C42 (see checks/C42.py); schedules biased towards
 reordering so that the demand boundary and the receive buffer are under pressure.
 Oracle on the real traffic: every SequencedMessage carries a seq <= the highest request-up-to the consumer controller
 has sent (and <= the highest one the producer controller has received), demandUpTo never exceeds it, and the
-consumer-side buffer never exceeds the window.
+consumer-side buffer never exceeds the window. Chunked and durable flows (oracle only) additionally see the
+consumer controller reported dead and replaced (Terminated notice to the producer controller, fresh registration),
+the path through which handleTerminated could park demandUpTo at a currentSeq stored across the grant.
 """
 from rd_util import run_rd_check, oracle_c43
 
 THEOREMS = ["C43_never_beyond_requested", "C43_emitted_within_demand", "C43_buffer_within_window",
-            "C43_chunked_registration_refuted", "C43_chunked_registration_partial"]
+            "C43_chunked_registration_refuted", "C43_chunked_registration_partial", "C43_chunked_terminated_refuted"]
 
 
 def run(ctx):
